@@ -438,6 +438,7 @@ func RunOne(t *testing.T, tape *Tape, sc ScenarioFunc, o RunOpts) (res RunResult
 	s := &Sim{T: tape, MaxStep: o.MaxStep, MaxTime: o.MaxTime, Stats: map[string]int{}, traceOn: o.Trace, traceKeep: o.TraceKeep}
 	rand.Seed(int64(tape.Seed*1000003 + tape.Run)) //nolint:staticcheck // global source must be per-run deterministic
 	watchdogInfo.Store(fmt.Sprintf("seed=%d run=%d", tape.Seed, tape.Run))
+	zsimrt.RunStart() // process-wide caches of the library start empty
 	runtime.GC()
 	runtime.GC() // empties sync.Pools: pooled objects may hold channels of the previous bubble
 	old := debug.SetGCPercent(-1)
